@@ -67,13 +67,12 @@ def splitRows (w : Nat) : Nat → List Int → List (Nat → Bool)
   | 0, _ => []
   | b + 1, xs => fnB (xs.take w) :: splitRows w b (xs.drop w)
 
-/-- `ops.opstarts n genNumLoc k B | masks (B rows of n+1 bits) | sel` -/
+/-- `ops.opstarts n k B | masks (B rows of n+1 bits)` → the forced starts (k-major) -/
 def hOpStarts (toks : List String) : Option String := do
-  let [hd, ms, sel] ← parseSections toks | none
-  let [n, g, k, b] := hd | none
+  let [hd, ms] ← parseSections toks | none
+  let [n, k, b] := hd | none
   let masks := splitRows (n.toNat + 1) b.toNat ms
-  let rs := opResample n.toNat k.toNat masks
-  pure s!"resample={bit rs} ok={bit (opStartsOk n.toNat g.toNat k.toNat masks (natsOf sel))} det={natsStr (startsOf b.toNat k.toNat 1 g.toNat)}"
+  pure s!"sel={natsStr (opStarts n.toNat k.toNat masks)}"
 
 /-- `ops.samplen w n B | masks (B rows of w bits) | sel` -/
 def hSampleN (toks : List String) : Option String := do
@@ -130,7 +129,7 @@ def hSpecStarts (toks : List String) : Option String := do
   let [lo, hi] := hd | none
   let mask := fnB ms
   let s := natsOf st
-  pure s!"feas={Rl4co.Spec.Ops.feasible lo.toNat hi.toNat mask} feasok={bit (Rl4co.Spec.Ops.startsFeasOk lo.toNat hi.toNat mask s)} distinctok={bit (Rl4co.Spec.Ops.startsDistinctOk lo.toNat hi.toNat mask s)}"
+  pure s!"feas={Rl4co.Spec.Ops.feasible lo.toNat hi.toNat mask} feasok={bit (Rl4co.Spec.Ops.startsFeasOk lo.toNat hi.toNat mask s)} feasstrong={bit (Rl4co.Spec.Ops.startsFeasStrongOk lo.toNat hi.toNat mask s)} distinctok={bit (Rl4co.Spec.Ops.startsDistinctOk lo.toNat hi.toNat mask s)}"
 
 /-- `ops.spec.best chosen ret | rewards of the instance` -/
 def hSpecBest (toks : List String) : Option String := do
